@@ -26,6 +26,13 @@ Definition np_eye : mat := fun i j => if Nat.eqb i j then 1 else 0.
 Definition np_hstack (w : nat) (blocks : list mat) : mat :=
   fun i j => nth (j / w) blocks np_zeros i (j mod w).
 
+(* np.cumsum of a list of counts; np.split(v, cuts) of a vector of length total as (offset, length) pieces *)
+Fixpoint np_cumsum_from (acc : nat) (l : list nat) : list nat :=
+  match l with [] => [] | a :: t => (acc + a)%nat :: np_cumsum_from (acc + a)%nat t end.
+Definition np_cumsum (l : list nat) : list nat := np_cumsum_from O l.
+Fixpoint np_split_from (start : nat) (cuts : list nat) (total : nat) : list (nat * nat) :=
+  match cuts with [] => [(start, (total - start)%nat)] | c :: t => (start, (c - start)%nat) :: np_split_from c t total end.
+
 (* np.std(l, ddof=k) ** 2 *)
 Definition var_ddof (k : nat) (l : list F) : F :=
   let mu := mean F l in lsumF F (map (fun x => (x - mu) * (x - mu)) l) / of_nat F (length l - k).
